@@ -4,7 +4,7 @@
 From Coq Require Import Extraction ExtrOcamlBasic.
 From Coq Require Import List NArith ZArith String.
 From Gen Require Import Tables.
-From Model Require Import Base Names Flt F32 Matches Detect Declared Cd Decode Cli Md Md32.
+From Model Require Import Base Names Flt F32 Matches Detect Declared Cd Decode Cli Md Md32 Layers SbLangs.
 
 Extraction Language OCaml.
 Separate Extraction
@@ -20,4 +20,6 @@ Separate Extraction
   Cd.coherence_ratio Cd.merge_coherence_ratios Cd.filter_alt Cd.most_common
   Decode.helper Decode.utf8_decoder Decode.sb_decoder
   Cli.run
-  Md.mess_ratio Md.suspicious Md32.md_consts32.
+  Md.mess_ratio Md.suspicious Md32.md_consts32
+  Layers.alpha_unicode_split
+  SbLangs.sb_langs32.
